@@ -289,6 +289,9 @@ def _check_c08(part: Part, tier, seed):
     cases += [((), (a,), (), (b,)) for a in names for b in names if a != b][:: (1 if tier == "thorough" else 3)]
     cases += [((), (a,), (b,), ()) for a in ("K.m", "K.n.inner") for b in ("K", "f")]
     cases += [(((ln, texts[0]),), (), ("f",), ()) for ln in code_lines[2:22:3]]
+    # the marker syntax allows several blanks between the words (the patterns are "# +?pragma: +?no +?cover")
+    wide = ["#  pragma:  no  cover", "#   pynguin:   no    cover", "# pragma:  no cover", "# pynguin: no  cover"]
+    cases += [(((ln, wide[k % 4]),), (), (), ()) for k, ln in enumerate(code_lines[:: (2 if tier == "thorough" else 4)])]
     if tier == "thorough":
         cases += [(((a, texts[0]), (b, texts[1])), (), (), ()) for a, b in itertools.combinations(code_lines, 2)][::5]
     k = 0
